@@ -225,6 +225,51 @@ Section Access.
 
   (** * The ring buffers as the code has them *)
 
+  (** [OffsetDegIter.backrefs]: [window] outdegrees indexed by [node mod window]
+      ([backrefs[reference_node_id % compression_window]], written only when the window is
+      not 0). *)
+  Definition dring_slot (p : params) (x : N) : nat := N.to_nat (x mod window p).
+
+  Definition dring_lookup (p : params) (ring : list N) (x d : N) : option N :=
+    if (d =? 0) || (x <? d) then None else nth_opt ring (dring_slot p (x - d)).
+
+  Fixpoint dring_nodes (p : params) (n : nat) (x : N) (ring : list N) (s : St)
+    : option (list (N * N) * St) :=
+    match n with
+    | O => Some ([], s)
+    | S n' =>
+      '(deg, s1) <- skip_record p x (dring_lookup p ring x) s ;;
+      let ring' := if window p =? 0 then ring else set_nth ring (dring_slot p x) deg in
+      '(rest, s2) <- dring_nodes p n' (x + 1) ring' s1 ;;
+      Some ((pos s, deg) :: rest, s2)
+    end.
+
+  Definition dring_new (p : params) : list N := repeat 0 (N.to_nat (window p)).
+
+  (** [offset_deg_iter()] with the ring *)
+  Definition offdeg_ring (p : params) (n : nat) (s : St) : option (list (N * N)) :=
+    '(l, _) <- dring_nodes p n 0 (dring_new p) s ;; Some l.
+
+  (** the loop of [offset_deg_iter_from]:
+      [for node_id in node.saturating_sub(window)..node { backrefs[node_id % window] = outdegree(node_id) }] *)
+  Fixpoint dring_prefill (p : params) (fuel : nat) (j k : N) (ring : list N) : option (list N) :=
+    match fuel with
+    | O => None
+    | S f =>
+      if k <=? j then Some ring
+      else
+        o <- ra_outdegree j ;;
+        dring_prefill p f (j + 1) k (set_nth ring (dring_slot p j) o)
+    end.
+
+  Definition offdeg_from_ring (p : params) (fuel : nat) (n : nat) (k : N)
+    : option (list (N * N)) :=
+    ring <- dring_prefill p fuel (k - N.min (window p) k) k (dring_new p) ;;
+    s <- seek k ;;
+    '(l, _) <- dring_nodes p (n - N.to_nat k) k ring s ;;
+    Some l.
+
+
   (** [CircularBuffer] of [window + 1] lists indexed by [node mod (window + 1)]:
       [backrefs[reference_node_id]]. *)
   Definition ring_slot (p : params) (x : N) : nat := N.to_nat (x mod (window p + 1)).
@@ -300,6 +345,12 @@ Definition acc_offdeg le cs p (n : nat) (s : bits) : option (list (N * N)) :=
   offdeg bits (rd_bits le cs) (pos_bits s) p n s.
 Definition acc_offdeg_from le cs p (offs : list N) (s : bits) (k : N) : option (list (N * N)) :=
   offdeg_from bits (rd_bits le cs) (seek_bits offs s) (pos_bits s) p (length offs)
+    (length offs - 1) k.
+Definition acc_offdeg_ring le cs p (n : nat) (s : bits) : option (list (N * N)) :=
+  offdeg_ring bits (rd_bits le cs) (pos_bits s) p n s.
+Definition acc_offdeg_from_ring le cs p (offs : list N) (s : bits) (k : N)
+  : option (list (N * N)) :=
+  offdeg_from_ring bits (rd_bits le cs) (seek_bits offs s) (pos_bits s) p (length offs)
     (length offs - 1) k.
 Definition acc_next_successors le cs p (n : nat) (s : bits) : option (list (list N)) :=
   next_successors_all bits (rd_bits le cs) p n s.
